@@ -57,6 +57,10 @@ out += ["", "%d runs of seeded changes against checks (a change seeded for C01 i
         "* `C06-deadliner-backpressure-deadlock` (the deadliner blocks on a full output buffer; `dutydb.Store` then blocks in `Add` under its lock): the dutydb driver uses a scripted deadliner; the real deadliner's stream (with new monitor `deadliner:add_blocked`) is now part of C06's check.",
         "* `C06-att-answer-shallow-copy` (answers share their checkpoints with the stored value): the driver never touched what it received; it now scribbles over every answer (`hx.Scribble`, the hostile caller), likewise the aggsigdb driver.",
         "* `C20-active-set-alias` (the shared active-index slice is stored without cloning; a later `append` writes into memory shared by several epochs): the driver handed the cache exact-capacity slices, so every append reallocated; slices now carry spare capacity, as slices built by `append` do in production.",
+        "* `C04-round-change-value-hash-guard` first crashed the admission driver (the package's own `createMsg` refused an honest ROUND-CHANGE): reported as a broken correspondence without input; the driver now reports `qbftwire:honest_message_not_constructible`.",
+        "* `C09-genesis-domain-epoch0` (`GetDomain` takes the genesis domain for epoch 0): the aggregator driver derives its expectation through the same function; the bit-exact signing model and stream of C10 (`signing`, epochs 0/1/boundaries, fork at epoch 0) are now part of C09's check.",
+        "* `C12-deposit-network-from-flag` (deposit domain taken from the `--network` default when `--testnet-*` flags are used): `create cluster` was only run on named networks; the driver now also creates a custom test network.",
+        "* `C16-stale-clock-late-add` (the late-add check compares with a clock value read before the `select`): the driver's quiescence ping after every op is itself a deadliner event and refreshed the stale value; new op `qadv` moves the clock without any call into the deadliner before a registration whose deadline passed meanwhile.",
         ""]
 txt = "\n".join(out)
 p = '/verif/DESIGN.md'
